@@ -18,8 +18,10 @@ CHECKS = {
              "sufficient standard sets verified by an independent "
              "identifiability test, entered through random add_* entry "
              "points (full/abbreviated matrices, port maps, m and a/b, "
-             "const/scalar/vector parameters); solve + apply must return the "
-             "device within 1e-11(1+kappa). Observed executions only.",
+             "const/scalar/vector parameters, sparse and one-way multi-port "
+             "standards, receiver gains and reference-wave scales of "
+             "1e-7..1e4); solve + apply must return the device within "
+             "1e-11(1+kappa). Observed executions only.",
         note="trusted: numpy/LAPACK, the E-term signal-flow model; "
              "ill-conditioned scenarios (kappa>1e4) regenerated/skipped and "
              "counted",
@@ -28,12 +30,16 @@ CHECKS = {
         technique="runtime monitoring: clang ASan + UBSan + LeakSanitizer "
                   "(queried per history), gcc ASan/UBSan as second opinion and "
                   "valgrind memcheck on a sample, over generated API call "
-                  "histories with valid/boundary/invalid arguments",
+                  "histories with valid/boundary/invalid arguments; "
+                  "persistent stdio faults (write/read/close/open) for the "
+                  "error paths behind I/O failures",
         text="Generated histories over every object kind and >110 public "
              "functions, arguments from valid, boundary and invalid domains, "
              "buffers always truthful; zero sanitizer reports, no crash/abort/"
              "hang, and calls invalid by a documented rule return the failure "
-             "value. Executed paths only.",
+             "value; every file-writing / -reading function also runs under "
+             "a persistent stdio fault (disk full after N bytes, read error, "
+             "failing close / open). Executed paths only.",
         note="trusted: clang 14 / gcc 12 sanitizer runtimes, valgrind 3.19; "
              "red-zone tools miss non-adjacent / intra-object overflows; "
              "zero-length VLAs and memcpy(p, NULL, 0) are not treated as "
@@ -58,14 +64,17 @@ CHECKS["C12"] = dict(
     technique="fault injection: forced-include allocation shim fails the k-th "
               "libvna allocation of scripted histories, every k; differential "
               "comparison with the fault-free run; ASan/UBSan/LSan",
-    text="For twelve scripted histories (parameters, properties, vnadata "
+    text="For thirteen scripted histories (parameters, properties, vnadata "
          "incl. save/load in three file types, alias and mode-switch flows, "
-         "seven calibration flows) and for generated API histories (quick 8, "
+         "seven calibration flows, an unknown parameter re-solved with "
+         "another point count) and for generated API histories (quick 8, "
          "thorough 96) every allocation index made from libvna source text "
          "is failed once (thorough: all, about 80 000 runs; quick: all of "
-         "three scripts, every 7th / 5th of the rest). "
+         "four scripts, every 7th / 5th of the rest). "
          "The faulted call must succeed or fail with ENOMEM, nothing may "
-         "crash or leak, and after one retry all later events, dumps and "
+         "crash or leak, between a failed call and its retry every live "
+         "object is dumped and every parameter handle evaluated (usable "
+         "half-way), and after one retry all later events, dumps and "
          "saved bytes equal the fault-free run.",
     note="single fault per run; libyaml/libc allocations are not faulted; "
          "observer ops (dumps) are excluded from injection",
@@ -105,7 +114,10 @@ CHECKS["C09"] = dict(
               "offline oracle on the event log",
     text="Seeds of every file kind (written by the library, hand-written "
          "Touchstone 1/2 and YAML, the legacy V2 calibration file) are "
-         "mutated structurally; each input must be rejected with "
+         "mutated structurally (incl. lines spliced in from another seed); "
+         "every second vnadata input is loaded into an object that held "
+         "other data and must give the object a fresh destination gets; "
+         "each input must be rejected with "
          "-1/NULL, EBADMSG/ENOPROTOOPT/system errno and a single-line "
          "message, leaving a usable destination and no leak, or load into a "
          "self-consistent object that saves and re-loads to the same "
@@ -144,9 +156,10 @@ CHECKS["C17"] = dict(
     technique="runtime monitoring: metamorphic twin runs of the real library "
               "on related scenario pairs; offline comparison of applied "
               "S-parameters",
-    text="Pairs of calibrations related by one of eight transformations "
+    text="Pairs of calibrations related by one of nine transformations "
          "(entry point, full/abbreviated matrix, order, a/b scaling, "
-         "unrelated objects, frequencies together vs separately, E12 vs "
+         "unrelated objects, an earlier calibration through the same "
+         "parameter handles, frequencies together vs separately, E12 vs "
          "UE14, port renumbering) must correct the same device measurement "
          "identically within 1e-12(1+kappa); noisy over-determined data are "
          "used where the transformation preserves the least-squares problem.",
@@ -162,7 +175,9 @@ CHECKS["C20"] = dict(
          "solve after every addition; under-determined prefixes must fail "
          "with -1/EDOM and one MATH message, the first determining prefix "
          "and all later ones must solve and correct an independent device, "
-         "however many failed attempts preceded.",
+         "however many failed attempts preceded; half of the 3x3 pools hold "
+         "one-way (non-reciprocal) three-port standards and are judged on "
+         "the determined side only.",
     note="grey prefixes (enough equations but not determining, or kappa>1e5) "
          "are not asserted, as the property says",
     design_ref="DESIGN.md section 2, C20")
@@ -176,7 +191,8 @@ CHECKS["C02"] = dict(
          "limits 1..100, with/without weighting): every call must return, a "
          "failure must be -1/EDOM with one MATH message, a success must give "
          "the true parameter values and a correct device within 30*tol + "
-         "1e-10(1+kappa); an aggregate convergence floor guards against a "
+         "1e-10(1+kappa), also when the same unknown is solved again on "
+         "another grid; an aggregate convergence floor guards against a "
          "solver that never converges.",
     note="termination restated as 'returns within the watchdog'; guesses are "
          "generated inside the basin by construction (nearer the true TRL "
@@ -216,7 +232,9 @@ CHECKS["C18"] = dict(
          "for bit; with noise of exactly the declared size the rejection "
          "rate per (type, regime) at significance 0.05 must lie in [1 %, "
          "20 %] (widened binomially); a redundant standard displaced by 100 "
-         "sigma must be rejected in >= 90 %.",
+         "sigma must be rejected in >= 90 %; the same noise law on its own "
+         "grid, and a declaration made after earlier different ones, must "
+         "give the calibration of the plain declaration.",
     note="statistical clauses use wide bounds; only gross mis-weighting, "
          "wrong degrees of freedom or a broken p-value are detectable",
     design_ref="DESIGN.md section 2, C18")
@@ -232,7 +250,11 @@ CHECKS["C11"] = dict(
          "arguments must leave dump digests unchanged (twin run without the "
          "refused calls for the opaque vnacal_new_t); late failures must "
          "leave objects usable (failed solve -> add standards -> solve "
-         "corrects the device).",
+         "corrects the device); every file function runs once under a "
+         "persistent stdio fault (disk full, read error, failing close / "
+         "open): vnadata_save / vnacal_save must report it as a system "
+         "error, and the same call without the fault must then succeed and "
+         "write the same bytes as before.",
     note="trusted: pylib/errtable.py transcription of the six manuals; where "
          "the manual or the project's own tests leave errno open (property "
          "queries on a null element) either outcome is accepted",
